@@ -5,6 +5,8 @@ from ..interp_prop import InterpProp
 
 class C02(InterpProp):
     id = 'C02'
+    anomaly_tags = ('config',)
+    edited = 0.2
     decoy = 0.12
     # observables compared with the model (see InterpProp.normalize)
     cmp_eff = ()
